@@ -630,6 +630,8 @@ def D2_publish_writes(ctx):
         elif kind in ('Created', 'Updated'):
             if kind == 'Created' and len(resets) != 1:
                 bad.append((p, 'Created: StorageReset not published'))
+            if kind == 'Created' and len(resets) == 1 and pubs and idx_of(p, resets[0]) > min(idx_of(p, e) for e in pubs):
+                bad.append((p, 'Created: the StorageReset marker is published after the account version / code / slots it must mask for'))
             if kind == 'Updated' and resets:
                 bad.append((p, 'Updated: publishes a StorageReset (masks storage that in-order execution keeps)'))
             # code_changed decision
@@ -749,7 +751,7 @@ def D2_publish_writes(ctx):
         print(pretty_path(bad[0][0]), '\n', bad[0][1])
     ctx.ob('D2', f, 'publication-table', set(seen) >= {'Unchanged', 'Deleted', 'Created', 'Updated'} and not bad,
            '; '.join(sorted(set(w for _, w in bad))[:4]) + f' kinds={dict(seen)}', site=f.loc(f.b['lo']),
-           what='Unchanged ⇒ nothing; Deleted ⇒ StorageReset (+Basic(None) unless beneficiary); Created ⇒ StorageReset + account; Updated ⇒ no reset; Code published ⇔ has code ∧ code present ∧ (no snapshot ∨ snapshot hash ≠ new hash); Basic published when code/nonce/balance changed; every changed slot published with its present value; estimate flag forwarded')
+           what='Unchanged ⇒ nothing; Deleted ⇒ StorageReset (+Basic(None) unless beneficiary); Created ⇒ StorageReset + account; Updated ⇒ no reset; for a created account the marker goes out FIRST (code at the address can only run once its Basic/Code version is visible, so every storage read of such a reader already sees the marker; the read set keeps one version per location, a marker that appears between two SLOADs would be recorded as if it had been there for both); Code published ⇔ has code ∧ code present ∧ (no snapshot ∨ snapshot hash ≠ new hash); Basic published when code/nonce/balance changed; every changed slot published with its present value; estimate flag forwarded')
     # the reset helper (when the tree has one) publishes exactly the marker, for the address it was given, forwarding flag and write set
     try:
         rs = idb_fn(ctx, 'publish_storage_reset')
